@@ -63,7 +63,7 @@ def well_posed(X, mu, S, nu, tag=""):
     if not np.all(np.isfinite(S)):
         bad.append(("scale-nonfinite", f"{tag}scale matrix non-finite"))
     else:
-        if not np.allclose(S, S.T, rtol=1e-8, atol=1e-300):
+        if not np.allclose(S, S.T, rtol=1e-13, atol=0):
             bad.append(("scale-asymmetric", f"{tag}scale matrix not symmetric"))
         try:
             ev = np.linalg.eigvalsh(0.5 * (S + S.T))
@@ -98,7 +98,9 @@ def check_case(rng, X, desc):
             return np.isinf(a) and np.isinf(b) or min(a, b) > 1e5
         return abs(a - b) <= 1e-4 * max(a, b) or min(a, b) > 1e5
     sd = np.sqrt(np.diag(S))
+    t_big = sd * 1e7 * rng.choice([-1.0, 1.0], d)
     for name, Y, fmu, fS in (
+            ("translation-far", X + t_big, lambda m: m + t_big, lambda C: C),
             ("scaling", X * s, lambda m: m * s, lambda C: C * np.outer(s, s)),
             ("translation", X + t, lambda m: m + t, lambda C: C),
             ("permutation", X[:, p], lambda m: m[p], lambda C: C[np.ix_(p, p)])):
@@ -126,8 +128,18 @@ def check_modes(rng, X, desc):
     w = rng.dirichlet(np.ones(n))
     labels = (U[:, 0] > np.median(U[:, 0])).astype(int) if n >= 16 * d else np.zeros(n, int)
     np.random.seed(int(rng.integers(2 ** 31)))
-    for nm, f in (("from_global", lambda: ModeStatistics.from_global(U, w)),
-                  ("from_particles", lambda: ModeStatistics.from_particles(U, w, labels))):
+    import inspect
+    has_n_modes = "n_modes" in inspect.signature(ModeStatistics.from_particles).parameters
+    calls = [("from_global", lambda: ModeStatistics.from_global(U, w), None),
+             ("from_particles", lambda: ModeStatistics.from_particles(U, w, labels), labels)]
+    if has_n_modes:
+        # label space larger than the labels that occur: several empty labels and one owned by a single particle
+        lab2 = labels.copy() * 2                      # occurring labels 0 and 2; 1, 3, 4 empty
+        if n > 8:
+            lab2[int(rng.integers(n))] = 4            # label 4 owned by one particle (degenerate)
+        calls.append(("from_particles(n_modes=6)", lambda: ModeStatistics.from_particles(U, w, lab2, n_modes=6), lab2))
+    lo_all, hi_all = U.min(0), U.max(0)
+    for nm, f, labs in calls:
         try:
             with contextlib.redirect_stdout(io.StringIO()), np.errstate(all="ignore"):
                 ms = f()
@@ -139,6 +151,24 @@ def check_modes(rng, X, desc):
             bad.append(("modes-dof", f"{nm} passes degrees of freedom {dof} to the kernel"))
         if not (np.all(np.isfinite(ms.means)) and np.all(np.isfinite(ms.chol_covariances)) and np.all(np.isfinite(ms.inv_covariances))):
             bad.append(("modes-nonfinite", f"{nm} produced non-finite mean / cholesky / inverse"))
+            continue
+        for k in range(ms.K):
+            m = ms.means[k]
+            own = U[labs == k] if labs is not None else U
+            box = (own.min(0), own.max(0)) if (labs is not None and len(np.unique(own, axis=0)) > d) else (lo_all, hi_all)
+            tolb = 1e-9 * (1 + np.abs(box[1] - box[0]))
+            if np.any(m < box[0] - tolb) or np.any(m > box[1] + tolb):
+                bad.append(("modes-location-outside", f"{nm}: mode {k} location {m} outside the bounding box of the particles it describes"))
+            C = ms.covariances[k]
+            if not np.allclose(C, C.T, rtol=1e-12, atol=0) or np.linalg.eigvalsh(0.5 * (C + C.T)).min() <= 0:
+                bad.append(("modes-scale-not-spd", f"{nm}: mode {k} scale matrix not symmetric positive definite"))
+                continue
+            kap = np.linalg.cond(C)
+            e1 = np.max(np.abs(ms.chol_covariances[k] @ ms.chol_covariances[k].T - C)) / np.max(np.abs(C))
+            e2 = np.max(np.abs(ms.inv_covariances[k] @ C - np.eye(d)))
+            if e1 > 1e-10 or e2 > 1e-9 * kap:
+                bad.append(("modes-factors-inconsistent", f"{nm}: mode {k}: Cholesky factor / inverse are not those of the scale matrix "
+                            f"(|LL^T-C|/|C| = {e1:.3g}, |C^-1 C - I| = {e2:.3g}, cond {kap:.3g})"))
     return bad
 
 
@@ -205,7 +235,7 @@ def run():
         for idx, desc, bad, nu in val:
             ck.case(desc, nontrivial=desc["kind"] != "gauss")
             ck.event("fit_mvstud well-posedness + 3 equivariance pairs")
-            ck.event("ModeStatistics.from_global/from_particles checked", 2)
+            ck.event("ModeStatistics.from_global/from_particles checked", 3)
             if nu is not None and np.isfinite(nu):
                 finite_nu += 1
             for key, what in bad:
